@@ -1,13 +1,14 @@
-\* behaviours: same universe as Cbor_MC.cfg (invariants checked again on the way)
+\* behaviours: same universe as Cbor_MC.cfg (theorems checked again on the way)
 SPECIFICATION GenSpec
 CONSTANTS
   Ints <- WideInts
   Strs <- WideStrs
   Tags <- WideTags
+  Simples <- AllSimples
   MaxStack = 2
   MaxNodes = 3
   MaxDepth = 2
   MaxArr = 2
   MaxPairs = 1
   AllowWrap = TRUE
-INVARIANTS TypeOK RoundTrip SelfDelimiting NoItemIsAPrefix PrefixFree CanonicalEncoding ReEncode HeadIsShortest WrapIsExact Emit
+INVARIANTS Theorems Emit
